@@ -21,15 +21,20 @@ func runC03(cfg *runCfg) error {
 		}
 		_ = wi
 		for _, c := range [][3]bool{{false, false, false}, {true, true, false}} {
-			rsEnumerate(w, depth, c[0], c[1], c[2], func(sc *rsScenario) { enum = append(enum, sc) })
+			d := depth
+			if cfg.tier == "thorough" && rsPacketsBound(w.Ops) <= 3 {
+				d = 3 // every placement of three consecutive faults for the small workloads
+			}
+			rsEnumerate(w, d, c[0], c[1], c[2], func(sc *rsScenario) { enum = append(enum, sc) })
 		}
 	}
 	fams := []rsFamily{
 		{"corpus", rsCorpus()},
 		{"enum", enum},
 		{"random", rsRandomFamily(cfg.seed, n, [5]int{2, 3, 3, 1, 1}, false, false)},
+		{"silent", rsRandomFamily(cfg.seed+5, n/5, [5]int{1, 4, 3, 1, 0}, true, false)},
 	}
-	rule := "fixed workloads x every placement of closing faults; random scenarios of 1-4 connections from one submitting goroutine with requests before/while connecting/connected/during outages, refused and failed connects; every connection of the run is judged: PUBLISH packets of different messages in submission order on each connection, first transmissions in submission order, first deliveries of QoS>=1 in submission order; non-trivial = distinct scenario with >= 2 publishes and at least one fault"
+	rule := "fixed workloads x every placement of closing faults; random scenarios of 1-4 connections from one submitting goroutine with requests before/while connecting/connected/during outages, refused and failed connects (family silent: with acknowledgements withheld on open connections and a response timeout); every connection of the run is judged: PUBLISH packets of different messages in submission order on each connection, first transmissions in submission order, first deliveries of QoS>=1 in submission order; non-trivial = distinct scenario with >= 2 publishes and at least one fault"
 	return rsRunProperty(cfg, "C03", "c03_ok'", fams, rule, func(sc *rsScenario, o *rsObs) bool {
 		return len(sc.Faults) > 0 && len(o.Wire) > 2
 	})
